@@ -332,6 +332,16 @@ func main() {
 			die(2, "replay <file>")
 		}
 		os.Exit(replay(fs.Arg(0), *extra))
+	case "selftest-simkv":
+		c := exec.Command("go", "test", "-count=1", "./simkv/", "-rapid.checks=1500")
+		c.Dir = filepath.Join(verif, "xsim")
+		c.Env = append(os.Environ(), goEnv...)
+		out, err := c.CombinedOutput()
+		fmt.Print(string(out))
+		if err != nil {
+			os.Exit(2)
+		}
+		return
 	case "selftest-determinism":
 		os.Exit(selftestDeterminism(fs.Args(), seed, *extra))
 	}
